@@ -45,7 +45,7 @@ def core_program(rng, depth=3, allow_break=True, allow_print=True):
         if k == 4:   # map / filter / sort lambda over a small range
             return rng.choice("123") + "ɾ" + rng.choice("ƛ'µ") + seq(d - 1) + brk() + ";"
         if k == 5:   # function definition + call
-            ps = rng.choice(["", ":1", ":2", ":a", ":a:b", ":1:a"])
+            ps = rng.choice(["", ":1", ":2", ":a", ":a:b", ":1:a", ":*", ":0", ":*:1", ":a:*", ":0:a"])   # `*`: the call pops a count first
             return "@f" + ps + "|" + seq(d - 1) + brk() + ";" + seq(d - 1, 0, 2) + "@f;"
         if k == 6:   # list literal
             return "⟨" + "|".join(seq(d - 1) + brk() for _ in range(rng.randint(1, 3))) + "⟩"
